@@ -66,6 +66,7 @@ type Job struct {
 	Stubs           map[string]interceptFn
 	OneShot         bool // non-incremental solving (floating point)
 	DiffSamples     int // number of passing paths whose models are replayed natively (must pass there too)
+	CancelOnlyIdle  bool // caller-owned contexts are cancelled only when every thread waits (not at arbitrary observations)
 	NoDiff          bool // passing paths are not replayed natively (the harness depends on a symbolic clock or schedule)
 	ReplayInstr     []SrcInsert // textual insertions into copies of repository files for the native replay
 	ReplayTest      string   // native test (in the harness dir's *_test.go files) that replays a model of this job
@@ -522,6 +523,7 @@ var harnessFuncRe = regexp.MustCompile(`(?m)^func (H_\w+)\(\)`)
 type SrcInsert struct {
 	File, Anchor, Text string
 	All                bool // after every matching line
+	Before             bool // insert before the matching line instead of after it
 }
 
 // harnessTestOverlay maps the replay drivers (*_test.go of the harness dirs).
